@@ -267,6 +267,12 @@ def run_impl(sc, url="ws://example.test/chat", ws_kwargs=None, check_alias=True)
             run.selector = SimSelector(sock, run)
             return run.selector
 
+    import lomond.compression as C
+    old_zlib = C.zlib
+    run.zparams = []
+    run.zpending_parts = None
+    if sc.get("zlog"):
+        C.zlib = ZlibLog(run)
     old_time = S.time
     old_mk = F.make_masking_key
     old_urandom = W.os.urandom
@@ -381,11 +387,67 @@ def run_impl(sc, url="ws://example.test/chat", ws_kwargs=None, check_alias=True)
         S.time = old_time
         F.make_masking_key = old_mk
         W.os = W.os._real
+        C.zlib = old_zlib
     return run
 
 
 def _raise_in_loop(run):
     raise Boom()
+
+
+class ZlibLog(object):
+    """stands in for the `zlib` module inside lomond.compression: same functions, calls are logged in the trace"""
+
+    def __init__(self, run):
+        self._run = run
+        self._n_c = 0
+        self._n_d = 0
+
+    def __getattr__(self, name):
+        return getattr(zlib, name)
+
+    def compressobj(self, *a, **kw):
+        real = zlib.compressobj(*a, **kw)
+        self._n_c += 1
+        epoch = self._n_c - 1
+        run = self._run
+        run.zparams.append(("c", a))
+
+        class C(object):
+            def compress(self, data):
+                run.log([9, epoch, bytes(data)])
+                return real.compress(data)
+
+            def flush(self, *fa):
+                return real.flush(*fa)
+        return C()
+
+    def decompressobj(self, *a, **kw):
+        real = zlib.decompressobj(*a, **kw)
+        self._n_d += 1
+        epoch = self._n_d - 1
+        run = self._run
+        run.zparams.append(("d", a))
+        parts = []
+
+        class D(object):
+            def decompress(self, data, *da):
+                data = bytes(data)
+                tail = data == b"\x00\x00\xff\xff"
+                if not tail:
+                    parts.append(data)
+                try:
+                    out = real.decompress(data, *da)
+                except Exception:
+                    # the logical Deflate.decompress(frames) call ends here: log the inputs of the whole message
+                    run.log([8, epoch, list(run.zpending_parts or parts)])
+                    del parts[:]
+                    raise
+                if tail:
+                    run.log([8, epoch, list(parts)])
+                    del parts[:]
+                return out
+        return D()
 
 
 class _OsProxy(object):
